@@ -447,7 +447,7 @@ UNIT = Unit(
         Fn("src/style.rs", "ProgressStyle", "current_tick_str", ret="r", sig_rewrites=[Rw("R15", r"-> &str", "-> &String")],
            requires=[("two-ticks", "self.tick_strings@.len() >= 2")],
            ensures=[("C11-spinner", "r@ == tick_text(*self, *state)")]),
-        Fn("src/style.rs", "ProgressStyle", "format_state",
+        Fn("src/style.rs", "ProgressStyle", "format_state", also=["C10", "C11"],   # the renderer of the parsed template: literal text and placeholder values
            rewrites=[Rw("R5", r"String::new\(\)", "s_new()", count=2),
                      Rw("R5", r"buf\.clear\(\);", "s_clear(&mut buf);"),
                      Rw("R5", r"buf\.push\('\\x00'\);", r"s_push(&mut buf, '\\x00');", count=2),
